@@ -311,6 +311,24 @@ def run(pid, tier, seed):
                                   (key, str(proto.get(o, key))[:200], str(proto.get(c, key))[:200]), ctx, signature={"symptom": "copy-differs", "key": key})
                     break
         if len(dumps) >= 7:
+            # integrality marks follow the columns: a deleted column takes its mark with it, a new column is continuous
+            def expect_flags(flags, tgt):
+                flags = list(flags)
+                for l in lines:
+                    t = l.split()
+                    if len(t) > 2 and t[0] in ("addcol", "newcol") and t[1] == str(tgt):
+                        flags.append("0")
+                    elif len(t) > 2 and t[0] == "delcol" and t[1] == str(tgt) and int(t[2]) < len(flags):
+                        del flags[int(t[2])]
+                return flags
+            f0 = (proto.get(dumps[1][1], "intflags") or ["0"])[1:]
+            for tgt, dump in ((1, dumps[4][1]), (0, dumps[5][1])):
+                got = (proto.get(dump, "intflags") or ["0"])[1:]
+                want = expect_flags(f0, tgt)
+                if got != want and len(got) == len(want):
+                    rep.violation("integrality marks after adding / deleting columns are %s, expected %s (marks move with their columns, new columns are continuous)" %
+                                  ("".join(got), "".join(want)), ctx, signature={"symptom": "intflags-after-edit"})
+                    break
             # after editing the copy (dumps[3], dumps[4]) the original still equals dumps[1]; after editing the original (dumps[5], dumps[6]) the copy equals dumps[4]
             for key in DUMP_KEYS:
                 if proto.get(dumps[3][1], key) != proto.get(dumps[1][1], key):
